@@ -2,6 +2,8 @@ import Walrus.Run
 import Walrus.Replace
 import Walrus.Rename
 import Walrus.Driver.ModuleD
+import Walrus.CodeMaps
+import Walrus.Agree
 
 /-! `exec <seed> <rounds> <gas> <module text>` → the observation of the scripted run;
     `execeq <seed> <rounds> <gas> <module A> || <module B>` → `same` or where the observations part -/
@@ -209,8 +211,21 @@ def handleRenTie (ws : List String) : String :=
                    | [.ref _ x] => fb.lt[xρ u x]? == fa.lt[x]?
                    | _ => true)
                 else true
-              if okSig && okBody && okLoc then none
-              else some s!"function {u}: sig={okSig} body={okBody} locals={okLoc}"
+              -- the hypothesis of `round_trip_reads_as_ren_elide` for this function: the parse-time
+              -- environment and the emit-time maps (checked to be the ones the model's emission
+              -- used) take every surviving leaf and block type where ρ takes it.  Bodies with a
+              -- memarg offset ≥ 2^32 (finding D5) are outside the theorem: ρ does not reduce offsets.
+              let okAgree :=
+                match pfs[u - nif]?, oc.funcs.find? (·.id = u) with
+                | some pf, some ofn =>
+                  let e := envOf c pf
+                  let m := mapsOf c pfs (keepAll c pfs.length) ofn.localMap
+                  let tie := (emitBodyMarks m (PSeqs.toArena pf.seqs) 0).map (·.1) == some ofn.ops
+                  let plainOffsets := fa.body.flat.all fun o => wrap o == o
+                  tie && (!plainOffsets || agreeL e m ρ fa.body)
+                | _, _ => fa.imp.isSome
+              if okSig && okBody && okLoc && okAgree then none
+              else some s!"function {u}: sig={okSig} body={okBody} locals={okLoc} agree={okAgree}"
             | _, _ => some s!"function {u}: missing"
           -- the non-code sections: B's must be A's with the function indices renumbered
           let mA' := mapFM fρ mA
